@@ -232,7 +232,17 @@ func addVirtualTableHelper(vTableMap map[string]struct{}, orgid int64) (bool, er
 	return true, nil
 }
 
+// An index name is used as a directory name and as a file name under the data
+// directory, so it must be a simple file name.
+func IsValidIndexName(indexName string) bool {
+	return utils.IsSimpleFileName(indexName)
+}
+
 func AddVirtualTable(tname *string, orgid int64) error {
+	if !IsValidIndexName(*tname) {
+		return fmt.Errorf("AddVirtualTable: invalid index name: %v", *tname)
+	}
+
 	vTableMap := make(map[string]struct{})
 	vTableMap[*tname] = struct{}{}
 
@@ -306,6 +316,10 @@ func AddVirtualTableAndMapping(tname *string, mapping *string, orgid int64) erro
 }
 
 func AddMapping(tname *string, mapping *string, orgid int64) error {
+	if !IsValidIndexName(*tname) {
+		return fmt.Errorf("AddMapping: invalid index name: %v", *tname)
+	}
+
 	var sb1 strings.Builder
 	sb1.WriteString(VTableMappingsDir)
 	if orgid != 0 {
